@@ -12,7 +12,7 @@ from fractions import Fraction
 from . import pp
 from .guards import analysis, truth_of, as_cmp, closure_info
 from .prover import Prover, poly_interval
-from .sym import Sym, Poly, atom_str
+from .sym import Sym, Poly, atom_str, INT_OP_CALL
 from .terms import strip, short, cname, unmut, walk, same, show
 
 INT_TYS = {"u8": (8, False), "u16": (16, False), "u32": (32, False), "u64": (64, False), "u128": (128, False), "usize": (64, False),
@@ -55,6 +55,8 @@ class Ctx:
         self.extra = list(extra_facts or [])       # Poly >= 0 facts valid everywhere in the body
         self.notes = dict(param_notes or {})
         self._facts = {}
+        self._tv = {}
+        self.used_audited = {}     # audited implication -> set of instance notes
         self._path = None
         self._path_facts = None
         if body.kind == "Closure":
@@ -307,6 +309,14 @@ class Ctx:
                     cs = [d.const_value() for d in diffs]
                     add(Poly.sym(name) - base - Poly.const(min(cs)))
                     add(base + Poly.const(max(cs)) - Poly.sym(name))
+            if name not in self._tv:
+                from . import audited
+                self._tv[name] = audited.table_value_facts(self, name)
+            tvf, note = self._tv[name]
+            for f_ in tvf:
+                add(f_)
+            if note:
+                self.used_audited.setdefault("table-values", set()).add(note)
             m = re.match(r"^<impl u(\d+)>::leading_zeros\((.*)\)$", name)
             if m:
                 inner = m.group(2)
@@ -656,6 +666,11 @@ def collect(ctx, res=None):
                     o = Ob(body.path, bb, "panic", s, body.where(bb))
                     obs.append(o)
                     continue
+            if INT_OP_CALL.match(t.get("resolved") or ""):
+                o = Ob(body.path, bb, "call", "int-op:" + s, body.where(bb))
+                o.call = t
+                obs.append(o)
+                continue
             if s in CALL_RULES:
                 o = Ob(body.path, bb, "call", s, body.where(bb))
                 o.call = t
@@ -970,7 +985,66 @@ def rule_radix(ctx, o):
     return ctx.in_range(o.bb, p, 2, 36)
 
 
-CALL_RULES = {
+def rule_int_op(ctx, o):
+    """`<&usize as Mul<usize>>::mul` etc. carry #[rustc_inherit_overflow_checks]: same obligation as the MIR assert"""
+    t = o.call
+    mo = INT_OP_CALL.match(t.get("resolved") or "")
+    w, sg = INT_TYS[mo.group(1)]
+    rng = (-(1 << (w - 1)), (1 << (w - 1)) - 1) if sg else (0, (1 << w) - 1)
+    a, b = ctx.an.terms.operand(t["args"][0]), ctx.an.terms.operand(t["args"][1])
+    pa, pb = ctx.sy.poly(a), ctx.sy.poly(b)
+    if pa is None or pb is None:
+        return False, "operands not polynomial"
+    op = mo.group(2)
+    r = pa + pb if op == "add" else pa - pb if op == "sub" else pa * pb
+    return ctx.in_range(o.bb, r, rng[0], rng[1])
+
+
+def rule_sum(ctx, o):
+    """Iterator::sum over integers adds with overflow checks: n * element range must fit the result type"""
+    t = o.call
+    ga = t.get("gargs") or []
+    rty = ga[-1] if ga else None
+    rng = ty_range(rty)
+    if rng is None:
+        if rty is not None and rty.get("k") == "float":
+            return True, "float sum"
+        return False, "sum result type unknown"
+    call = ("call", cname(t), tuple(ctx.an.terms.operand(a) for a in t["args"]), o.bb)
+    p = ctx.sy.poly(call)
+    nm = ctx.sy.name(call)
+    bx = ctx.sy.sym_box.get(nm)
+    if bx is None or bx[0] is None or bx[1] is None:
+        return False, "no bound on the sum (element count or element range unknown)"
+    if bx[0] >= rng[0] and bx[1] <= rng[1]:
+        return True, "sum range [%d, %d] fits" % (bx[0], bx[1])
+    return False, "sum range [%s, %s] exceeds the result type" % bx
+
+
+def rule_capacity(ctx, o):
+    """Vec::with_capacity(n) panics when n * size_of::<T>() > isize::MAX"""
+    t = o.call
+    ga = t.get("gargs") or []
+    esz = None
+    if ga and ga[0].get("k") in ("int", "float"):
+        esz = ga[0]["w"] // 8
+    p = ctx.sy.poly(ctx.an.terms.operand(t["args"][0]))
+    if p is None:
+        return False, "capacity not polynomial"
+    lim = ((1 << 63) - 1) // esz if esz else (1 << 40)
+    ok, how = ctx.in_range(o.bb, p, 0, lim)
+    return ok, ("capacity <= %d: %s" % (lim, how))
+
+
+class _Rules(dict):
+    def __missing__(self, k):
+        if k.startswith("int-op:"):
+            return rule_int_op
+        raise KeyError(k)
+
+
+CALL_RULES = _Rules()
+CALL_RULES.update({
     "Result::<T, E>::unwrap": rule_unwrap, "Result::<T, E>::expect": rule_unwrap,
     "Option::<T>::unwrap": rule_unwrap, "Option::<T>::expect": rule_unwrap,
     "Index::index": rule_index, "IndexMut::index_mut": rule_index,
@@ -979,8 +1053,9 @@ CALL_RULES = {
     "Iterator::step_by": rule_nonzero_arg1,
     "Vec::<T, A>::swap_remove": rule_index_lt_len, "Vec::<T, A>::remove": rule_index_lt_len,
     "Vec::<T, A>::split_off": rule_index_le_len, "<impl [T]>::split_at": rule_index_le_len, "<impl str>::split_at": rule_index_le_len,
+    "Iterator::sum": rule_sum, "Vec::<T>::with_capacity": rule_capacity,
     "<impl u8>::from_str_radix": rule_radix, "<impl u16>::from_str_radix": rule_radix, "<impl u32>::from_str_radix": rule_radix,
-}
+})
 
 
 # ---------------------------------------------------------------------- loops
@@ -1100,7 +1175,7 @@ def path_sensitive(ctx, o, limit=256):
         try:
             # infeasible paths (contradictory atoms) prove anything
             ge, ne, other = ctx.facts_at(o.bb)
-            pr = Prover(ge, ctx.box(ge))
+            pr, _, _ = ctx.prover_at(o.bb, [])
             dead, _ = pr.prove_ge0(Poly.const(-1))
             if dead or any(a[0] == "false" for a in other):
                 continue
@@ -1123,8 +1198,7 @@ def unreachable(ctx, o):
     """an explicit panic is fine iff the block is unreachable under the facts on its dominating edges
     (contradictory guards)"""
     ge, ne, other = ctx.facts_at(o.bb)
-    box = ctx.box(ge)
-    pr = Prover(ge, box)
+    pr, _, _ = ctx.prover_at(o.bb, [])
     # infeasible if 0 >= 1 follows, i.e. prove -1 >= 0
     ok, how = pr.prove_ge0(Poly.const(-1))
     if ok:
